@@ -19,6 +19,14 @@ package main
 //      with the variables E captures passed as parameters; the inliner then puts the loop
 //      where the call was, with its usual care for evaluation order.
 //
+//  N4  `for k, v := range m.AllFromFront()` (also Keys / Values) over an ordered map becomes
+//      the element loop the iterator is defined as: `for el := m.Front(); el != nil; el =
+//      el.Next() { k, v := el.Key, el.Value; ... }`.
+//
+//  N5  a new helper function used as a value (`re.ReplaceAllStringFunc(s, rewriteKey)`) is
+//      written as the literal `func(a T) R { return rewriteKey(a) }`, so that the inliner can
+//      put its body there (closures extracted into named functions come back as closures).
+//
 // Whenever a precondition is not met the construct is left as it is.
 
 import (
@@ -146,6 +154,7 @@ type normaliser struct {
 	aliasDef map[*ast.Ident]bool // uses of a table that define an alias of it
 	local    map[*types.Var]bool // tables that are local variables (must stay "used" after unrolling)
 	n        int
+	baseline map[string]bool // functions of the reviewed decomposition (never rewritten away)
 	changed  map[*ast.File]bool
 	log      []string
 }
@@ -672,14 +681,14 @@ func (nz *normaliser) containsIn(f *ast.File) {
 // preNormalise runs N1-N3 on cur (the original package or the re-checked result of earlier
 // rounds, whose changed files are in base); it returns the re-checked package and the
 // accumulated overlay, or cur and nil when nothing applied (or the result did not type-check).
-func preNormalise(orig, cur *packages.Package, base map[string][]byte, rep *inlineReport, outer int) (*packages.Package, map[string][]byte) {
+func preNormalise(orig, cur *packages.Package, base map[string][]byte, rep *inlineReport, outer int, baseline map[string]bool) (*packages.Package, map[string][]byte) {
 	overlay := map[string][]byte{}
 	for k, v := range base {
 		overlay[k] = v
 	}
 	changedAny := false
 	for round := 0; round < 3; round++ {
-		nz := &normaliser{pkg: cur, info: cur.TypesInfo, changed: map[*ast.File]bool{}, n: outer*10000 + round*1000}
+		nz := &normaliser{pkg: cur, info: cur.TypesInfo, changed: map[*ast.File]bool{}, n: outer*10000 + round*1000, baseline: baseline}
 		nz.findTables()
 		for _, f := range cur.Syntax {
 			nz.unrollIn(f)
@@ -687,6 +696,8 @@ func preNormalise(orig, cur *packages.Package, base map[string][]byte, rep *inli
 		}
 		for _, f := range cur.Syntax {
 			nz.containsLoopsIn(f)
+			nz.omapIteratorsIn(f)
+			nz.etaExpandIn(f)
 		}
 		if len(nz.changed) == 0 {
 			break
@@ -908,4 +919,156 @@ func (nz *normaliser) containsLoopsIn(f *ast.File) {
 		return true
 	})
 	f.Decls = append(f.Decls, newDecls...)
+}
+
+// ---- N4: ordered-map iterators as element loops ----
+
+func (nz *normaliser) omapIteratorsIn(f *ast.File) {
+	astutil.Apply(f, nil, func(c *astutil.Cursor) bool {
+		rs, ok := c.Node().(*ast.RangeStmt)
+		if !ok {
+			return true
+		}
+		ce, ok := rs.X.(*ast.CallExpr)
+		if !ok || len(ce.Args) != 0 {
+			return true
+		}
+		se, ok := ce.Fun.(*ast.SelectorExpr)
+		if !ok {
+			return true
+		}
+		mode := se.Sel.Name
+		if mode != "AllFromFront" && mode != "Keys" && mode != "Values" {
+			return true
+		}
+		fo, ok := nz.info.Uses[se.Sel].(*types.Func)
+		if !ok || fo.Pkg() == nil || !strings.Contains(fo.Pkg().Path(), "elliotchance/orderedmap") {
+			return true
+		}
+		// the map expression: an identifier or a selector chain of identifiers (evaluated once
+		// by the range statement; evaluating it in the loop header instead changes nothing)
+		pure := func(e ast.Expr) bool {
+			for {
+				switch x := e.(type) {
+				case *ast.Ident:
+					return true
+				case *ast.SelectorExpr:
+					e = x.X
+				case *ast.ParenExpr:
+					e = x.X
+				default:
+					return false
+				}
+			}
+		}
+		if !pure(se.X) {
+			return true
+		}
+		if rs.Tok != token.DEFINE && (rs.Key != nil || rs.Value != nil) {
+			return true
+		}
+		name := func(e ast.Expr) string {
+			if id, ok := e.(*ast.Ident); ok && id.Name != "_" {
+				return id.Name
+			}
+			return ""
+		}
+		var kn, vn string
+		switch mode {
+		case "AllFromFront":
+			kn, vn = name(rs.Key), name(rs.Value)
+		case "Keys":
+			kn = name(rs.Key)
+			if rs.Value != nil {
+				return true
+			}
+		case "Values":
+			vn = name(rs.Key)
+			if rs.Value != nil {
+				return true
+			}
+		}
+		nz.n++
+		it := fmt.Sprintf("_it%d", nz.n)
+		var pre []ast.Stmt
+		bind := func(n, field string) {
+			if n == "" {
+				return
+			}
+			pre = append(pre,
+				&ast.AssignStmt{Lhs: []ast.Expr{ast.NewIdent(n)}, Tok: token.DEFINE, Rhs: []ast.Expr{&ast.SelectorExpr{X: ast.NewIdent(it), Sel: ast.NewIdent(field)}}},
+				&ast.AssignStmt{Lhs: []ast.Expr{ast.NewIdent("_")}, Tok: token.ASSIGN, Rhs: []ast.Expr{ast.NewIdent(n)}})
+		}
+		bind(kn, "Key")
+		bind(vn, "Value")
+		body := &ast.BlockStmt{List: append(pre, rs.Body.List...)}
+		loop := &ast.ForStmt{
+			Init: &ast.AssignStmt{Lhs: []ast.Expr{ast.NewIdent(it)}, Tok: token.DEFINE, Rhs: []ast.Expr{&ast.CallExpr{Fun: &ast.SelectorExpr{X: copyNode(se.X).(ast.Expr), Sel: ast.NewIdent("Front")}}}},
+			Cond: &ast.BinaryExpr{X: ast.NewIdent(it), Op: token.NEQ, Y: ast.NewIdent("nil")},
+			Post: &ast.AssignStmt{Lhs: []ast.Expr{ast.NewIdent(it)}, Tok: token.ASSIGN, Rhs: []ast.Expr{&ast.CallExpr{Fun: &ast.SelectorExpr{X: ast.NewIdent(it), Sel: ast.NewIdent("Next")}}}},
+			Body: body,
+		}
+		c.Replace(loop)
+		nz.changed[f] = true
+		nz.log = append(nz.log, "range over "+mode+"() written as the element loop")
+		return true
+	})
+}
+
+// ---- N5: eta-expansion of new helper functions used as values ----
+
+func (nz *normaliser) etaExpandIn(f *ast.File) {
+	if nz.baseline == nil {
+		return
+	}
+	qual, qok := nz.fileQualifier(f)
+	var stack []ast.Node
+	astutil.Apply(f, func(c *astutil.Cursor) bool {
+		stack = append(stack, c.Node())
+		return true
+	}, func(c *astutil.Cursor) bool {
+		stack = stack[:len(stack)-1]
+		id, ok := c.Node().(*ast.Ident)
+		if !ok {
+			return true
+		}
+		fo, ok := nz.info.Uses[id].(*types.Func)
+		if !ok || fo.Parent() != nz.pkg.Types.Scope() || nz.baseline[fo.Name()] {
+			return true
+		}
+		// only as an argument of a call (not the callee, not a selector operand)
+		parent, ok := c.Parent().(*ast.CallExpr)
+		if !ok || parent.Fun == ast.Expr(id) {
+			return true
+		}
+		sig := fo.Type().(*types.Signature)
+		if sig.Variadic() || sig.Recv() != nil || sig.TypeParams() != nil {
+			return true
+		}
+		var ps, as []string
+		for i := 0; i < sig.Params().Len(); i++ {
+			ps = append(ps, fmt.Sprintf("_p%d %s", i, types.TypeString(sig.Params().At(i).Type(), qual)))
+			as = append(as, fmt.Sprintf("_p%d", i))
+		}
+		var rs []string
+		for i := 0; i < sig.Results().Len(); i++ {
+			rs = append(rs, types.TypeString(sig.Results().At(i).Type(), qual))
+		}
+		if !*qok {
+			return true
+		}
+		body := "return " + id.Name + "(" + strings.Join(as, ", ") + ")"
+		if len(rs) == 0 {
+			body = id.Name + "(" + strings.Join(as, ", ") + ")"
+		}
+		src := "func(" + strings.Join(ps, ", ") + ") (" + strings.Join(rs, ", ") + ") { " + body + " }"
+		e, err := parser.ParseExpr(src)
+		if err != nil {
+			return true
+		}
+		c.Replace(copyNode(e).(ast.Expr))
+		nz.changed[f] = true
+		nz.log = append(nz.log, "function value "+id.Name+" written as a literal calling it")
+		return true
+	})
 }
